@@ -1,0 +1,45 @@
+//go:build verif
+
+// Contracts for the deductive verifier under /verif (comment-only; never compiled into oxy).
+package connlimit
+
+//@ type ConnLimiter
+//@   immutable mutex extract maxConnections next errHandler log verbose
+//@   setup Wrap
+//@   guarded_by mutex: connections totalConnections
+//@   ghost adm map[string]int guarded_by mutex
+//@   ghost held map[string]int threadlocal
+//@   lockinv mutex (cl): mirror: forall t string :: cl.connections[t] == cl.adm[t]
+//@   lockinv mutex (cl): map_alloc: cl.connections != nil
+
+//@ func (*ConnLimiter).acquire
+//@   props C04 C14
+//@   atomic cl.mutex
+//@   modifies cl.connections[token], cl.totalConnections, cl.adm[token], cl.held[token]
+//@   ensures admit_iff: (result == nil) <==> (old(cl.connections[token]) < cl.maxConnections)
+//@   ensures admitted: result == nil ==> cl.connections[token] == old(cl.connections[token]) + amount
+//@   ensures refused: result != nil ==> cl.connections[token] == old(cl.connections[token]) && istype(result, "*MaxConnError")
+//@   ensures total: cl.totalConnections == old(cl.totalConnections) + ite(result == nil, amount, 0)
+//@   ghost_ensures cl.adm[token] == old(cl.adm[token]) + ite(result == nil, amount, 0)
+//@   ghost_ensures cl.held[token] == old(cl.held[token]) + ite(result == nil, amount, 0)
+
+//@ func (*ConnLimiter).release
+//@   props C04 C14
+//@   atomic cl.mutex
+//@   requires holds_slot: cl.held[token] >= amount
+//@   modifies cl.connections[token], cl.totalConnections, cl.adm[token], cl.held[token]
+//@   ensures released: cl.connections[token] == old(cl.connections[token]) - amount
+//@   ensures total: cl.totalConnections == old(cl.totalConnections) - amount
+//@   ensures deleted_at_zero: cl.connections[token] == 0 ==> !in(token, cl.connections)
+//@   ghost_ensures cl.adm[token] == old(cl.adm[token]) - amount
+//@   ghost_ensures cl.held[token] == old(cl.held[token]) - amount
+
+//@ func (*ConnLimiter).ServeHTTP
+//@   props C04 C20
+//@   requires held_nonneg: forall t string :: cl.held[t] >= 0
+//@   modifies everything
+//@   ensures balanced: forall t string :: cl.held[t] == old(cl.held[t])
+//@   ensures_panic balanced: forall t string :: cl.held[t] == old(cl.held[t])
+//@   ensures one_outcome: calls(cl.next.ServeHTTP) + calls(cl.errHandler.ServeHTTP) == 1
+//@   at_call cl.next.ServeHTTP slot_held: cl.held[callarg(acquire, 0, 1)] >= old(cl.held[callarg(acquire, 0, 1)]) + 1
+//@   at_call cl.errHandler.ServeHTTP nothing_held: forall t string :: cl.held[t] == old(cl.held[t])
